@@ -276,7 +276,12 @@ func TestVerifC15(t *testing.T) {
 					break
 				}
 			}
-			first := strings.SplitN(strings.TrimSpace(blk), "\n", 2)[0]
+			// "<time> panic recovered:" then the panic value on the next line
+			lines := strings.SplitN(strings.TrimSpace(blk), "\n", 3)
+			first := lines[0]
+			if len(lines) > 1 {
+				first += " " + strings.TrimSpace(lines[1])
+			}
 			if !seen[site] {
 				seen[site] = true
 				out.L2("panic-site", fmt.Sprintf("seed=%d site=%s", zzverif.Seed(), site), first)
